@@ -140,7 +140,11 @@ def flat_conditions(p, node, stop):
             for v in t.values:
                 add(expand(p, v, stop, cond=True), False)
         else:
-            out.append((t, pol))
+            t2 = expand(p, t, stop, cond=True) if isinstance(t, ast.Name) else t
+            if t2 is not t:
+                add(t2, pol)
+            else:
+                out.append((t, pol))
 
     for t, pol in conditions_of(p, node, stop):
         add(t, pol)
@@ -174,7 +178,11 @@ def early_exit_guards(p, node, fn):
             for v in t.values:
                 add(v, True)
         else:
-            flat.append((t, pol))
+            t2 = expand(p, t, fn, cond=True) if isinstance(t, ast.Name) else t
+            if t2 is not t:
+                add(t2, pol)
+            else:
+                flat.append((t, pol))
 
     for t, pol in out:
         add(t, pol)
@@ -252,11 +260,35 @@ def kwarg(call, name, pos=None):
     return None
 
 
+def literal_prefix(p, e, fn=None):
+    """(literal string prefix, the expression appended) of `"VERB " + str(x)` / f"VERB {x}" / f"VERB {x!s}" (aliases expanded); else (None, None)"""
+    if fn is not None:
+        e = deep_expand(p, e, fn)
+    if isinstance(e, ast.Constant) and isinstance(e.value, str):
+        return e.value, None
+    if isinstance(e, ast.BinOp) and isinstance(e.op, ast.Add) and isinstance(e.left, ast.Constant) and isinstance(e.left.value, str):
+        return e.left.value, e.right
+    if isinstance(e, ast.JoinedStr) and e.values and isinstance(e.values[0], ast.Constant) and isinstance(e.values[0].value, str):
+        rest = e.values[1:]
+        if len(rest) == 1 and isinstance(rest[0], ast.FormattedValue) and rest[0].format_spec is None and rest[0].conversion in (-1, 115):
+            v = rest[0].value
+            return e.values[0].value, ast.Call(func=ast.Name(id="str", ctx=ast.Load()), args=[v], keywords=[])
+        if not rest:
+            return e.values[0].value, None
+        return e.values[0].value, ast.JoinedStr(values=rest)
+    return None, None
+
+
 def const_values(p, expr, fn):
     """possible constant values of expr in fn: constants through name definitions (tuple assignments
     included); None in the list for a non-constant definition"""
     if isinstance(expr, ast.Constant):
         return [expr.value]
+    if isinstance(expr, ast.Starred) and isinstance(expr.value, ast.Name) and fn is not None:
+        # f(*reply) with reply = ("503", "text"): the first element
+        f, ds = closure_lookup(p, fn, expr.value.id)
+        vals = [v.elts[0].value if isinstance(v, ast.Tuple) and v.elts and isinstance(v.elts[0], ast.Constant) else None for k, v, _ in ds if k == "assign"]
+        return vals or [None]
     if isinstance(expr, ast.Name) and fn is not None:
         f, ds = closure_lookup(p, fn, expr.id)
         vals = []
